@@ -17,6 +17,13 @@ MANIFEST = dict(
 MODULE = "IwModel.Props.C19"
 THEOREMS = [
     "IwModel.C19.vnum_dec_enc", "IwModel.C19.vnum_size", "IwModel.C19.vnum_enc_wf", "IwModel.C19.vnum_thresholds_ok",
+    "IwModel.C19.atoi_itoaSpec", "IwModel.C19.wrap64_id", "IwModel.C19.atoi_itoaSpec_wrap", "IwModel.C19.itoa_bounds",
+    "IwModel.C19.itoa_bounds64", "IwModel.C19.itoa_refines_spec", "IwModel.C19.atoi_itoa", "IwModel.C19.itoaSpec_length_le", "IwModel.C19.atoi_itoa64", "IwModel.C19.ascii2hex_ok",
+    "IwModel.C19.hex_roundtrip", "IwModel.C19.plain_antisymm", "IwModel.C19.plain_eq_iff", "IwModel.C19.plain_compound_eq_iff",
+    "IwModel.C19.plain_trans", "IwModel.C19.plain_order", "IwModel.C19.vnum_numeric", "IwModel.C19.vnum_compound_numeric",
+    "IwModel.C19.vnum_total", "IwModel.C19.real_total", "IwModel.C19.real_total_linear", "IwModel.C19.real_keys_total",
+    "IwModel.C19.real_keys_total_both", "IwModel.C19.prefix_agrees_plain", "IwModel.C19.prefix_agrees_compound", "IwModel.C19.prefix_agrees_compound64",
+    "IwModel.C19.prefix_agrees_short", "IwModel.C19.prefix_old_rule_disagrees_witness",
 ]
 
 H = lambda b: binascii.hexlify(bytes(b)).decode() or "-"
@@ -69,8 +76,12 @@ def case_vnum(r):
 def case_vdec(r):
     # arbitrary buffers (terminated or not): model/impl comparison only
     n = r.randrange(1, 12)
-    b = bytes(r.choice([r.randrange(128, 256), r.randrange(0, 256)]) for _ in range(n))
-    return Case("vdec", ["vdec " + H(b)])
+    b = bytearray(r.choice([r.randrange(128, 256), r.randrange(0, 256)]) for _ in range(n))
+    # at most 8 continuation bytes: a 10th group would shift the macro's int64_t base to 2^63 (UB on an
+    # input no encoder call can produce: values < 2^63 take at most 9 bytes), which is outside C19
+    if n > 8 and all(x >= 128 for x in b[:9]):
+        b[8] = r.randrange(0, 128)
+    return Case("vdec", ["vdec " + H(bytes(b))])
 
 
 def case_itoa(r):
@@ -183,6 +194,18 @@ def case_cmp(r):
             bodies[1] = bodies[0] + r.choice([b"0", b" ", b".0"])
     cbase = boundary_u64(r) % (1 << 62)
     comps = [max(0, cbase + r.choice([-1, 0, 0, 1])) if comp else 0 for _ in range(3)]
+    if mode == "plain" and comp and r.random() < 0.3:
+        # F39: compound parts whose vnum encodings differ in length, bodies about as long as the body
+        # part of the 115-byte cached prefix (115 - vnum size) and sharing it, decided by a late byte
+        base = bytes(r.randrange(1, 255) for _ in range(140))
+        sizes = [r.randrange(1, 10) for _ in range(3)]
+        comps = [(128 ** (s - 1) if s > 1 else 0) + r.randrange(0, 100) for s in sizes]
+        bodies = []
+        for _ in range(3):
+            b = bytearray(base[:r.choice([r.randrange(105, 117), r.randrange(117, 131)])])
+            if r.random() < 0.7:
+                b[-1] = (b[-1] + r.choice([1, 255])) % 256
+            bodies.append(bytes(b))
     if r.random() < 0.3:
         bodies[2], comps[2] = bodies[0], comps[0]      # identical pair
     keys = list(zip(bodies, comps))
